@@ -114,6 +114,26 @@ func (m *Machine) bigStub(fn *ssa.Function, args []Value) (Value, bool) {
 		if b := get(0); b.isConst() {
 			return m.newByteSlice(b.c.Bytes()), true
 		}
+		if m.intMode && m.bigBytesHavoc == 0 {
+			// the byte length is known when the value's interval lies between two consecutive powers of 256
+			b := get(0)
+			if lo, hi := m.interval(b.lin); lo != nil && lo.Sign() >= 0 && len(lo.Bytes()) == len(hi.Bytes()) {
+				n := len(hi.Bytes())
+				arr := ArrayV{}
+				for i := 0; i < n; i++ {
+					arr.elems = append(arr.elems, m.constInt(big.NewInt(0), types.Typ[types.Uint8]))
+				}
+				out := SliceV{arr: m.newObj(arr, "bytes"), len: n, cap: n}
+				rest := b.lin
+				for i := n - 1; i >= 0; i-- {
+					q, r := m.divmod(rest, big.NewInt(256))
+					m.store(elemPtr(out, i), VInt{lin: r})
+					rest = q
+				}
+				return out, true
+			}
+			panic("big.Int.Bytes of a value whose byte length is not determined by its interval")
+		}
 		if m.bigBytesHavoc > 0 {
 			// effect analysis only: a fresh slice of the maximal length with unconstrained content
 			arr := ArrayV{}
